@@ -105,10 +105,7 @@ def keyOf (role : Role) (key : Bytes) : Bytes :=
   | .server => []
 
 /-- the payload bytes as they go onto the wire -/
-def bodyOf (role : Role) (key data : Bytes) : Bytes :=
-  match role with
-  | .client => maskData key 0 data
-  | .server => data
+def bodyOf (role : Role) (key data : Bytes) : Bytes := bodyBytes role key 0 data
 
 theorem frame_shape (role : Role) (key data rest : Bytes) :
     frame role key data ++ rest =
@@ -193,7 +190,7 @@ theorem unmask_bodyOf (role : Role) (key data : Bytes) :
     (if role = .client then unmask (keyOf role key) 0 (bodyOf role key data) else bodyOf role key data) = data := by
   cases role
   · simp only [if_true, keyOf, bodyOf]; exact unmask_maskData key data 0
-  · simp [bodyOf]
+  · simp [bodyOf, bodyBytes]
 
 open Coap.Spec.WsFrame in
 /-- what coap_ws_write hands to the lower layer is ONE frame: FIN, no RSV bit, binary, MASK iff client, the
@@ -275,7 +272,7 @@ theorem frOf_written (role : Role) (key data rest : Bytes) (hk : key.length = 4)
     · have : (((lenField data.length).2 ++ keyOf .client key).drop (hExt (b1Of .client data.length).toNat)).take 4 = key := by
         rw [hext.1, List.drop_left' rfl]; simp [keyOf, ← hk]
       simp only [readerMode, if_true, this, bodyOf]; exact unmask_maskData key data 0
-    · simp [readerMode, bodyOf]
+    · simp [readerMode, bodyOf, bodyBytes]
   rw [hpl]
 
 /-! ### several messages back to back -/
@@ -359,34 +356,295 @@ theorem frame_length (role : Role) (key data : Bytes) :
   unfold frame
   rw [List.length_append]
   cases role
-  · simp only [maskData_length]
+  · simp only [bodyBytes, maskData_length]
   · rfl
 
-/-- the lower layer takes the whole frame: coap_ws_write returns `datalen`, the wire got exactly the frame, and
-the state only remembers the key -/
-theorem wsWrite_all (st : St) (key data : Bytes) (lw : Nat → Int) (hup : st.up = true) (hsc : st.sentClose = false)
-    (hall : lw (frame st.role key data).length = ((frame st.role key data).length : Int)) :
-    (wsWrite st key data lw).1 = (data.length : Int) ∧ (wsWrite st key data lw).2.2 = frame st.role key data ∧
-    (wsWrite st key data lw).2.1.up = true ∧ (wsWrite st key data lw).2.1.sentClose = false ∧
-    (wsWrite st key data lw).2.1.role = st.role := by
-  have hl := frame_length st.role key data
-  have hnot : ¬ (((frame st.role key data).length : Int) < ((header st.role key data.length).length : Int)) := by
-    rw [hl]; omega
-  unfold wsWrite
-  simp only [hup, hsc, hall, Bool.not_true, Bool.false_eq_true, if_false, hnot, Int.toNat_natCast, List.take_length]
-  cases hr : st.role <;> simp [hup, hsc, hr]
+theorem maskData_drop (key : Bytes) : ∀ (d : Bytes) (i j : Nat),
+    (maskData key i d).drop j = maskData key (i + j) (d.drop j) := by
+  intro d
+  induction d with
+  | nil => intro i j; simp [maskData]
+  | cons b r ih =>
+    intro i j
+    cases j with
+    | zero => simp
+    | succ j =>
+      simp only [maskData, List.drop_succ_cons]
+      rw [ih (i + 1) j, show i + 1 + j = i + (j + 1) by omega]
 
-/-- whatever the lower layer does, what reaches the wire is a prefix of the one frame -/
-theorem wsWrite_wire_prefix (st : St) (key data : Bytes) (lw : Nat → Int) :
-    ∃ k, (wsWrite st key data lw).2.2 = (frame st.role key data).take k := by
-  unfold wsWrite
-  by_cases hup : st.up = true
-  · by_cases hsc : st.sentClose = true
-    · exact ⟨0, by simp [hup, hsc]⟩
-    · refine ⟨(lw (frame st.role key data).length).toNat, ?_⟩
-      simp only [hup, hsc, Bool.not_true, Bool.false_eq_true, if_false]
-      split <;> rfl
-  · exact ⟨0, by simp [hup]⟩
+/-- length of the frame header / of the frame -/
+def hLen (role : Role) (key data : Bytes) : Nat := (header role key data.length).length
+def fLen (role : Role) (key data : Bytes) : Nat := (frame role key data).length
+
+theorem fLen_eq (role : Role) (key data : Bytes) : fLen role key data = hLen role key data + data.length :=
+  frame_length role key data
+
+theorem hLen_ge (role : Role) (key data : Bytes) : 2 ≤ hLen role key data := by
+  unfold hLen header; cases role <;> simp <;> omega
+
+theorem frame_eq (role : Role) (key data : Bytes) :
+    frame role key data = header role key data.length ++ bodyOf role key data := by
+  cases role <;> rfl
+
+/-- `&tx_header[tx_hdr_len - 4]` is the key -/
+theorem header_key (key : Bytes) (n : Nat) (hk : key.length = 4) :
+    (header .client key n).drop ((header .client key n).length - 4) = key := by
+  have : (header .client key n).length - 4 = ((0x80 ||| 0x02 : UInt8) :: ((lenField n).1 ||| 0x80) :: (lenField n).2).length := by
+    simp [header, hk]
+  rw [this]
+  exact List.drop_left' rfl
+
+/-- the writer state when `n` bytes of the frame for (`key`, `data`) have been taken by the lower layer: `n = 0` -
+nothing of a frame is part way (a new frame will be started); `0 < n` - the stored header is this frame's and the
+counters say where in the frame the writer is -/
+def Rep (st : St) (key data : Bytes) (n : Nat) : Prop :=
+  st.up = true ∧ st.sentClose = false ∧ n ≤ fLen st.role key data ∧
+  (n = 0 → st.txHdrOfs = 0 ∨ (st.txHdrOfs = st.txHdr.length ∧ st.txDataLeft = 0)) ∧
+  (0 < n → st.txHdr = header st.role key data.length ∧ st.txHdrOfs = min n (hLen st.role key data) ∧
+     st.txDataOfs = n - hLen st.role key data ∧ st.txDataLeft = data.length - (n - hLen st.role key data))
+
+/-- the bytes a call offers, in the state that has `n` bytes of the frame out -/
+theorem offered_eq (role : Role) (key data : Bytes) (n : Nat) (hk : key.length = 4) :
+    (header role key data.length).drop (min n (hLen role key data)) ++
+      bodyBytes role ((header role key data.length).drop ((header role key data.length).length - 4))
+                      (n - hLen role key data) (data.drop (n - hLen role key data)) = (frame role key data).drop n := by
+  rw [frame_eq, List.drop_append]
+  have hb : bodyBytes role ((header role key data.length).drop ((header role key data.length).length - 4))
+                      (n - hLen role key data) (data.drop (n - hLen role key data)) =
+      (bodyOf role key data).drop (n - hLen role key data) := by
+    cases role
+    · simp only [bodyOf, bodyBytes]; rw [header_key key _ hk, maskData_drop, Nat.zero_add]
+    · rfl
+  rw [hb]
+  unfold hLen
+  by_cases h : n ≤ (header role key data.length).length
+  · rw [Nat.min_eq_left h]
+  · have e1 : (header role key data.length).drop (header role key data.length).length = [] :=
+      List.drop_of_length_le (Nat.le_refl _)
+    have e2 : (header role key data.length).drop n = [] := List.drop_of_length_le (by omega)
+    rw [Nat.min_eq_right (by omega), e1, e2]
+
+/-- ONE call of coap_ws_write in the state that has `n` bytes of the frame for (`key`, `data`) out, handed the data
+not yet taken, the lower layer accepting `k = lw(offered)` bytes: it offers exactly the rest of the frame, the wire gets
+its first `k` bytes, the state is the one for `n + k`, and the return value is the number of PAYLOAD bytes among them -/
+theorem wsWrite_step (st : St) (key data : Bytes) (n : Nat) (lw : Nat → Int) (hk : key.length = 4)
+    (hrep : Rep st key data n) (hn : n < fLen st.role key data)
+    (hlw : lw (fLen st.role key data - n) ≤ ((fLen st.role key data - n : Nat) : Int)) :
+    (wsWrite st key (data.drop (n - hLen st.role key data)) lw).2.2 =
+        ((frame st.role key data).drop n).take (lw (fLen st.role key data - n)).toNat ∧
+    Rep (wsWrite st key (data.drop (n - hLen st.role key data)) lw).2.1 key data
+        (n + (lw (fLen st.role key data - n)).toNat) ∧
+    (wsWrite st key (data.drop (n - hLen st.role key data)) lw).2.1.role = st.role ∧
+    (lw (fLen st.role key data - n) < 0 →
+      (wsWrite st key (data.drop (n - hLen st.role key data)) lw).1 = lw (fLen st.role key data - n)) ∧
+    (0 ≤ lw (fLen st.role key data - n) →
+      (wsWrite st key (data.drop (n - hLen st.role key data)) lw).1 =
+        (((n + (lw (fLen st.role key data - n)).toNat - hLen st.role key data) - (n - hLen st.role key data) : Nat) : Int)) := by
+  obtain ⟨hup, hsc, hle, h0, hpos⟩ := hrep
+  have hF := fLen_eq st.role key data
+  have hH := hLen_ge st.role key data
+  have hoff := offered_eq st.role key data n hk
+  have hdl : ((frame st.role key data).drop n).length = fLen st.role key data - n := by
+    rw [List.length_drop]; rfl
+  by_cases hz : n = 0
+  · subst hz
+    have hfresh : (decide (st.txHdrOfs = 0) || (decide (st.txHdrOfs = st.txHdr.length) && decide (st.txDataLeft = 0))) = true := by
+      rcases h0 rfl with h | ⟨h1, h2⟩
+      · simp [h]
+      · simp [h1, h2]
+    simp only [Nat.zero_sub, List.drop_zero, Nat.zero_min] at hoff ⊢
+    unfold wsWrite
+    simp only [hup, hsc, hfresh, Bool.not_true, Bool.false_eq_true, if_false, if_true, Bool.false_and, List.drop_zero]
+    rw [hoff]
+    have hfl : (frame st.role key data).length = fLen st.role key data := rfl
+    have hhl : (header st.role key data.length).length = hLen st.role key data := rfl
+    rw [hfl, hhl]
+    simp only [Nat.sub_zero] at hlw ⊢
+    generalize lw (fLen st.role key data) = ret at hlw ⊢
+    by_cases hr : ret ≤ 0
+    · have ht : ret.toNat = 0 := by omega
+      simp only [hr, if_true, ht, List.take_zero, Nat.add_zero, Nat.zero_sub]
+      refine ⟨trivial, ?_, trivial, fun _ => trivial, fun h => ?_⟩
+      · exact ⟨rfl, rfl, Nat.zero_le _, fun _ => Or.inl rfl, fun h => absurd h (Nat.lt_irrefl 0)⟩
+      · omega
+    · simp only [hr, if_false]
+      by_cases hh : ret.toNat < hLen st.role key data
+      · simp only [hh, if_true]
+        refine ⟨trivial, ?_, trivial, fun h => by omega, fun _ => ?_⟩
+        · refine ⟨rfl, rfl, ?_, fun h => by omega, fun _ => ⟨rfl, ?_, ?_, ?_⟩⟩ <;> simp only [] <;> omega
+        · omega
+      · simp only [hh, if_false]
+        refine ⟨trivial, ?_, trivial, fun h => by omega, fun _ => ?_⟩
+        · refine ⟨rfl, rfl, ?_, fun h => by omega, fun _ => ⟨rfl, ?_, ?_, ?_⟩⟩ <;> simp only [] <;> omega
+        · omega
+  · obtain ⟨e1, e2, e3, e4⟩ := hpos (by omega)
+    have hhl : (header st.role key data.length).length = hLen st.role key data := rfl
+    have hfresh : (decide (st.txHdrOfs = 0) || (decide (st.txHdrOfs = st.txHdr.length) && decide (st.txDataLeft = 0))) = false := by
+      rw [e1, e2, e4, hhl]
+      simp only [Bool.or_eq_false_iff, decide_eq_false_iff_not, Bool.and_eq_false_iff]
+      omega
+    have hlen : ¬ (data.drop (n - hLen st.role key data)).length > st.txDataLeft := by
+      rw [List.length_drop, e4]; omega
+    unfold wsWrite
+    simp only [hup, hsc, hfresh, hlen, Bool.not_true, Bool.not_false, Bool.false_eq_true, if_false, Bool.true_and,
+      decide_false]
+    rw [e1, e2, e3, e4, hoff, hdl, List.length_drop, hhl]
+    generalize lw (fLen st.role key data - n) = ret at hlw ⊢
+    by_cases hr : ret ≤ 0
+    · have ht : ret.toNat = 0 := by omega
+      simp only [hr, if_true, ht, List.take_zero, Nat.add_zero]
+      refine ⟨trivial, ?_, trivial, fun _ => trivial, fun h => ?_⟩
+      · exact ⟨hup, hsc, hle, fun h => absurd h hz, fun _ => ⟨e1, e2, e3, e4⟩⟩
+      · omega
+    · simp only [hr, if_false]
+      by_cases hh : ret.toNat < hLen st.role key data - min n (hLen st.role key data)
+      · simp only [hh, if_true]
+        refine ⟨trivial, ?_, trivial, fun h => by omega, fun _ => ?_⟩
+        · refine ⟨rfl, rfl, ?_, fun h => by omega, fun _ => ⟨rfl, ?_, ?_, ?_⟩⟩ <;> simp only [] <;> omega
+        · omega
+      · simp only [hh, if_false]
+        refine ⟨trivial, ?_, trivial, fun h => by omega, fun _ => ?_⟩
+        · refine ⟨rfl, rfl, ?_, fun h => by omega, fun _ => ⟨rfl, ?_, ?_, ?_⟩⟩ <;> simp only [] <;> omega
+        · omega
+
+/-- the lower layer never takes more than it is offered -/
+def Sane (lw : Nat → Int) : Prop := ∀ m, lw m ≤ (m : Int)
+
+theorem take_take_drop (l : Bytes) (n k : Nat) : l.take n ++ (l.drop n).take k = l.take (n + k) := by
+  rw [List.take_add]
+
+/-- the caller's loop from the state with `n` bytes of the frame out: nothing is lost, nothing is sent twice - the
+wire holds a longer prefix of the SAME frame, the state is the one for that prefix, and when the loop reports that
+everything was taken the frame is complete -/
+theorem sendAll_spec (role : Role) (key data : Bytes) (hk : key.length = 4) (hd : 0 < data.length) :
+    ∀ (lws : List (Nat → Int)) (st : St) (n : Nat), st.role = role → Rep st key data n → n < fLen role key data →
+      (∀ lw ∈ lws, Sane lw) →
+      ∃ m, n ≤ m ∧
+        (frame role key data).take n ++ (sendAll key lws st (data.drop (n - hLen role key data))).2.2 =
+          (frame role key data).take m ∧
+        Rep (sendAll key lws st (data.drop (n - hLen role key data))).2.1 key data m ∧
+        (sendAll key lws st (data.drop (n - hLen role key data))).2.1.role = role ∧
+        ((sendAll key lws st (data.drop (n - hLen role key data))).1 = true → m = fLen role key data) := by
+  intro lws
+  induction lws with
+  | nil =>
+    intro st n hrole hrep hn _
+    exact ⟨n, Nat.le_refl _, by simp [sendAll], hrep, hrole, fun h => by simp [sendAll] at h⟩
+  | cons lw lws ih =>
+    intro st n hrole hrep hn hs
+    subst hrole
+    have hlw : lw (fLen st.role key data - n) ≤ ((fLen st.role key data - n : Nat) : Int) :=
+      hs lw (List.mem_cons_self ..) _
+    obtain ⟨hw, hrep', hrole', hneg, hnn⟩ := wsWrite_step st key data n lw hk hrep hn hlw
+    have hF := fLen_eq st.role key data
+    have hm1 := hrep'.2.2.1
+    rw [hrole'] at hm1
+    simp only [sendAll]
+    generalize hr : wsWrite st key (data.drop (n - hLen st.role key data)) lw = r at hw hrep' hrole' hneg hnn
+    generalize hkk : (lw (fLen st.role key data - n)).toNat = k at hw hrep' hneg hnn hm1
+    by_cases h1 : r.1 < 0
+    · simp only [h1, if_true]
+      exact ⟨n + k, by omega, by rw [hw, take_take_drop], hrep', hrole', fun h => by cases h⟩
+    · simp only [h1, if_false]
+      have hret := hnn (by
+        rcases Int.lt_or_le (lw (fLen st.role key data - n)) 0 with h | h
+        · rw [hneg h] at h1; exact absurd h h1
+        · exact h)
+      have hlen : (data.drop (n - hLen st.role key data)).length = data.length - (n - hLen st.role key data) :=
+        List.length_drop
+      by_cases h2 : r.1.toNat ≥ (data.drop (n - hLen st.role key data)).length
+      · simp only [h2, if_true]
+        refine ⟨n + k, by omega, by rw [hw, take_take_drop], hrep', hrole', fun _ => ?_⟩
+        rw [hlen, hret] at h2
+        simp only [Int.toNat_natCast] at h2
+        omega
+      · simp only [h2, if_false]
+        rw [hlen, hret] at h2
+        rw [hret]
+        simp only [Int.toNat_natCast] at h2 ⊢
+        have hdrop : (data.drop (n - hLen st.role key data)).drop (n + k - hLen st.role key data - (n - hLen st.role key data)) =
+            data.drop (n + k - hLen st.role key data) := by
+          rw [List.drop_drop]; congr 1; omega
+        rw [hdrop]
+        obtain ⟨m, hm, hwire, hrepm, hrolem, hdone⟩ := ih r.2.1 (n + k) hrole' hrep'
+          (by omega) (fun lw' h' => hs lw' (List.mem_cons_of_mem _ h'))
+        refine ⟨m, by omega, ?_, hrepm, hrolem, hdone⟩
+        rw [← List.append_assoc, hw, take_take_drop, hwire]
+
+
+/-- nothing of a frame is part way to the lower layer: the next coap_ws_write starts a new frame -/
+def Idle (st : St) : Prop :=
+  st.up = true ∧ st.sentClose = false ∧ (st.txHdrOfs = 0 ∨ (st.txHdrOfs = st.txHdr.length ∧ st.txDataLeft = 0))
+
+theorem Rep_zero (st : St) (key data : Bytes) (h : Idle st) : Rep st key data 0 :=
+  ⟨h.1, h.2.1, Nat.zero_le _, fun _ => h.2.2, fun h0 => absurd h0 (Nat.lt_irrefl 0)⟩
+
+theorem Idle_of_Rep_full (st : St) (key data : Bytes) (h : Rep st key data (fLen st.role key data)) : Idle st := by
+  obtain ⟨hup, hsc, _, _, hpos⟩ := h
+  have hF := fLen_eq st.role key data
+  have hH := hLen_ge st.role key data
+  obtain ⟨e1, e2, _, e4⟩ := hpos (by omega)
+  refine ⟨hup, hsc, Or.inr ⟨?_, ?_⟩⟩
+  · rw [e2, e1]; unfold hLen at hF hH ⊢; omega
+  · rw [e4]; omega
+
+/-- a message sent from an idle writer through ANY sequence of partial writes: when the caller's loop reports that
+everything was taken, the wire got exactly ONE frame for it and the writer is idle again; in any case the wire got a
+prefix of that frame -/
+theorem sendAll_idle (st : St) (key data : Bytes) (lws : List (Nat → Int)) (hk : key.length = 4) (hd : 0 < data.length)
+    (hidle : Idle st) (hs : ∀ lw ∈ lws, Sane lw) :
+    (∃ m, (sendAll key lws st data).2.2 = (frame st.role key data).take m) ∧
+    (sendAll key lws st data).2.1.role = st.role ∧
+    ((sendAll key lws st data).1 = true →
+      (sendAll key lws st data).2.2 = frame st.role key data ∧ Idle (sendAll key lws st data).2.1) := by
+  have hF := fLen_eq st.role key data
+  have hH := hLen_ge st.role key data
+  obtain ⟨m, _, hw, hrep, hrole, hdone⟩ := sendAll_spec st.role key data hk hd lws st 0 rfl (Rep_zero st key data hidle)
+    (by omega) hs
+  simp only [Nat.zero_sub, List.drop_zero, List.take_zero, List.nil_append] at hw hrep hrole hdone
+  refine ⟨⟨m, hw⟩, hrole, fun h => ?_⟩
+  have hm := hdone h
+  subst hm
+  constructor
+  · rw [hw]; exact List.take_length
+  · rw [← hrole] at hrep; exact Idle_of_Rep_full _ key data hrep
+
+/-- several messages one after the other, ANY partial-write pattern for each: the wire always holds a prefix of
+the frames of the messages in order (never a frame started inside another), and when every message was reported
+sent it holds exactly those frames -/
+theorem sendMsgs_spec : ∀ (ms : List (Bytes × Bytes × List (Nat → Int))) (st : St), Idle st →
+    (∀ m ∈ ms, m.1.length = 4 ∧ 0 < m.2.1.length ∧ ∀ lw ∈ m.2.2, Sane lw) →
+    (∃ k, (sendMsgs ms st).2.2 = (writeAll st.role (ms.map fun m => (m.1, m.2.1))).take k) ∧
+    ((sendMsgs ms st).1 = true →
+      (sendMsgs ms st).2.2 = writeAll st.role (ms.map fun m => (m.1, m.2.1)) ∧ Idle (sendMsgs ms st).2.1) := by
+  intro ms
+  induction ms with
+  | nil => intro st hi _; exact ⟨⟨0, rfl⟩, fun _ => ⟨rfl, hi⟩⟩
+  | cons m rest ih =>
+    intro st hi hall
+    obtain ⟨hk, hd, hs⟩ := hall m (List.mem_cons_self ..)
+    obtain ⟨⟨j, hpre⟩, hrole, hdone⟩ := sendAll_idle st m.1 m.2.1 m.2.2 hk hd hi hs
+    simp only [sendMsgs, List.map_cons, writeAll]
+    by_cases hq : (sendAll m.1 m.2.2 st m.2.1).1 = true
+    · obtain ⟨hw, hidle'⟩ := hdone hq
+      obtain ⟨⟨k, hk'⟩, hfull⟩ := ih _ hidle' (fun x hx => hall x (List.mem_cons_of_mem _ hx))
+      rw [hrole] at hk' hfull
+      simp only [hq, if_true]
+      constructor
+      · refine ⟨(frame st.role m.1 m.2.1).length + k, ?_⟩
+        rw [hw, hk', List.take_append]
+        rw [List.take_of_length_le (Nat.le_add_right _ k), Nat.add_sub_cancel_left]
+      · intro h
+        obtain ⟨h1, h2⟩ := hfull h
+        exact ⟨by rw [hw, h1], h2⟩
+    · simp only [hq, Bool.false_eq_true, if_false]
+      refine ⟨⟨min j (frame st.role m.1 m.2.1).length, ?_⟩, fun h => by cases h⟩
+      rw [hpre, List.take_append_of_le_length (Nat.min_le_right _ _)]
+      by_cases hj : j ≤ (frame st.role m.1 m.2.1).length
+      · rw [Nat.min_eq_left hj]
+      · rw [Nat.min_eq_right (by omega), List.take_of_length_le (by omega), List.take_of_length_le (Nat.le_refl _)]
+
+theorem sane_lwAll : Sane lwAll := fun m => Int.le_refl _
 
 /-- not up, or Close already sent: nothing is written, 0 is returned -/
 theorem wsWrite_down (st : St) (key data : Bytes) (lw : Nat → Int) (h : st.up = false ∨ st.sentClose = true) :
